@@ -586,6 +586,8 @@ FOREIGN = ["tmp", "x" * 31, "0" * 33, "ABCDEF0123456789ABCDEF0123456789"]
 
 
 def gen_sp(rng, rich=False):
+    if rng.random() < 0.04:
+        return {}                     # the empty state point
     vals = SP_VALS if rich else SP_VALS_PLAIN
     n = rng.choice([1, 1, 2, 2, 3])
     keys = rng.sample(SP_KEYS, n)
